@@ -31,10 +31,11 @@ m = {
     "not_applicable": [],
     "notes": "All checks are generated-input search against explicit oracles (property-based testing / fuzzing). See DESIGN.md. known_findings.json lists recorded defects (none suppress unrelated violations) and fixed: entries.",
 }
+claimed = set(open(os.path.join(ROOT, "claimed.txt")).read().split())
 for p in props:
     pid = p["id"]
     c = checks.get(pid)
-    if not c or c.get("disabled"):
+    if not c or c.get("disabled") or pid not in claimed:
         m["not_applicable"].append({"property_id": pid, "reason": (c or {}).get("na_reason", "check not built yet (work in progress in this session); not claimed")})
         continue
     e = {
